@@ -107,6 +107,7 @@ func run(seed int64, n int, dir string, _ []string) {
 	g := hc.NewGen(seed)
 	o := hc.NewOut(dir)
 	defer o.Close()
+	zoneSort(o, g)
 	pr := hc.NewProc("")
 	defer pr.Close()
 	// a custom datetime format is in force for the whole run (the built-in notations keep working next to it)
